@@ -973,7 +973,213 @@ fn case_server(out: &mut Out, r: &mut Rng, ops: &[Op], reply: Reply, streaming: 
     });
 }
 
+// ------------------------------------------------------------------ (b') the CLIENT's view of an error status
+#[derive(Clone)]
+struct InMem {
+    reply: Arc<Mutex<Option<Result<(MetadataMap, Vec<Result<Vec<u8>, Status>>), Status>>>>,
+    streaming: bool,
+}
+impl tower_service::Service<http::Request<tonic::body::Body>> for InMem {
+    type Response = http::Response<tonic::body::Body>;
+    type Error = std::convert::Infallible;
+    type Future = Pin<Box<dyn Future<Output = Result<Self::Response, Self::Error>> + Send>>;
+    fn poll_ready(&mut self, _: &mut Context<'_>) -> Poll<Result<(), Self::Error>> {
+        Poll::Ready(Ok(()))
+    }
+    fn call(&mut self, req: http::Request<tonic::body::Body>) -> Self::Future {
+        let h = Handler { reply: self.reply.clone(), seen: Arc::new(Mutex::new(None)) };
+        let streaming = self.streaming;
+        Box::pin(async move {
+            let mut g = tonic::server::Grpc::new(RawCodec);
+            Ok(if streaming { g.server_streaming(h, req).await } else { g.unary(h, req).await })
+        })
+    }
+}
+/// real server::Grpc handler fails with `status` -> real client::Grpc: what Err(status) the
+/// caller gets. `after_message`: the handler first yields a message, the status travels in the
+/// trailers; otherwise it is a trailers-only response.
+fn case_client_error(out: &mut Out, r: &mut Rng, ops: &[Op], st: (u32, String, Vec<u8>), after_message: bool, streaming: bool, corpus: bool) {
+    let (md, raw) = apply_ops(ops);
+    let sent = md.clone().into_headers();
+    let (code, msg, details) = st;
+    let status = Status::with_details_and_metadata(Code::from_i32(code as i32), msg.clone(), Bytes::copy_from_slice(&details), md);
+    let reply = if after_message {
+        Ok((MetadataMap::new(), vec![Ok(b"one".to_vec()), Err(status.clone())]))
+    } else {
+        Err(status.clone())
+    };
+    let svc = InMem { reply: Arc::new(Mutex::new(Some(reply))), streaming: streaming || after_message };
+    let res = catch(std::panic::AssertUnwindSafe(|| {
+        let mut grpc = tonic::client::Grpc::new(svc);
+        let path = http::uri::PathAndQuery::from_static("/pkg.Svc/Method");
+        if streaming || after_message {
+            spin(
+                async {
+                    match grpc.server_streaming(Request::new(b"req".to_vec()), path, RawCodec).await {
+                        Err(s) => (0usize, Some(s)),
+                        Ok(resp) => {
+                            let mut stream = resp.into_inner();
+                            let mut n = 0usize;
+                            loop {
+                                match stream.message().await {
+                                    Ok(Some(_)) => n += 1,
+                                    Ok(None) => break (n, None),
+                                    Err(s) => break (n, Some(s)),
+                                }
+                            }
+                        }
+                    }
+                },
+                10000,
+            )
+            .expect("client hangs")
+        } else {
+            spin(
+                async {
+                    match grpc.unary(Request::new(b"req".to_vec()), path, RawCodec).await {
+                        Err(s) => (0usize, Some(s)),
+                        Ok(_) => (1usize, None),
+                    }
+                },
+                10000,
+            )
+            .expect("client hangs")
+        }
+    }));
+    let mut base = HeaderMap::new();
+    if !after_message {
+        base.insert("content-type", HeaderValue::from_static("application/grpc"));
+    }
+    let mut probes = vec![];
+    let mut outside = false;
+    let (obs, oracle) = match res {
+        Err(p) => (Tr::L(vec![Tr::n(99u8)]), Some(format!("panic: {}", p))),
+        Ok((n, got)) => {
+            if let Some(g) = &got {
+                probes = gen_probes(r, &g.metadata().clone().into_headers(), 2);
+            }
+            if !after_message && sent.contains_key("grpc-encoding") {
+                // outside the stated premise: client::Grpc reads grpc-encoding of the response head
+                // before the status (C05); the user's entry did arrive on the wire (server.trailers_only)
+                outside = true;
+            }
+            let mut why = if outside { None } else { oracle_received(&sent, got.as_ref(), code, &base, &raw) };
+            if !outside && why.is_none() && n != (after_message as usize) {
+                why = Some(format!("{} messages before the error status", n));
+            }
+            if why.is_none() && code == 0 {
+                why = None; // an OK "error" status ends the call cleanly on some paths: covered by C02
+            }
+            (if outside { Tr::L(vec![Tr::n(5u8)]) } else { received_tr(got.as_ref(), &probes) }, why)
+        }
+    };
+    out.hist("client_error.outside_premise_grpc_encoding", outside);
+    hist_md(out, "client_error", &sent, &raw);
+    out.hist("client_error.path", format!("{}/{}", if after_message { "trailers" } else { "trailers-only" }, if streaming || after_message { "server_streaming" } else { "unary" }));
+    let kind = if after_message { "client_error.trailers" } else { "client_error.trailers_only" };
+    out.push(Case {
+        kind: if corpus { format!("corpus.{}", kind) } else { kind.to_string() },
+        input: json!({"ops": ops_json(ops), "status": [code, hex(msg.as_bytes()), hex(&details)], "after_message": after_message, "streaming": streaming, "probes": probes}),
+        model: format!(
+            "{} {} {}",
+            if after_message { "obs_client_error_trailers" } else { "obs_client_error_trailers_only" },
+            status_coq(code, &msg, &details, &sent),
+            coq_probes(&probes)
+        ),
+        impl_obs: obs,
+        oracle,
+        nontrivial: !sent.is_empty(),
+    });
+}
+
 // ------------------------------------------------------------------ (c) Status::add_header
+// ------------------------------------------------------------------ error status, receiving side
+const MSG_PREFIX: &str = "Error deserializing status message header: ";
+const DET_PREFIX: &str = "Error deserializing status details header: ";
+const HTTP_PREFIX: &str = "grpc-status header missing, mapped from HTTP status code ";
+fn canon_msg(m: &str) -> Vec<u8> {
+    for p in [MSG_PREFIX, DET_PREFIX, HTTP_PREFIX] {
+        if m.starts_with(p) {
+            return p.as_bytes().to_vec();
+        }
+    }
+    m.as_bytes().to_vec()
+}
+fn status_tr(st: &Status) -> Tr {
+    Tr::L(vec![
+        Tr::n(st.code() as i32 as u32),
+        Tr::B(canon_msg(st.message())),
+        Tr::b(st.details()),
+        hm_tr(&st.metadata().clone().into_headers()),
+    ])
+}
+fn received_tr(st: Option<&Status>, probes: &[String]) -> Tr {
+    Tr::opt(st.map(|st| Tr::L(vec![status_tr(st), read_tr(&st.metadata().clone().into_headers(), probes)])))
+}
+/// what the RECEIVER of an error status sees in status.metadata(): every non-reserved entry the
+/// sender attached (other than grpc-status-details-bin, premise of c08_status_metadata_received)
+/// with the same values in the same order, binary values decode to the original bytes; besides
+/// only what the base header map had (content-type of a trailers-only response)
+fn oracle_received(sent: &HeaderMap, got: Option<&Status>, code: u32, base: &HeaderMap, raw: &RawBin) -> Option<String> {
+    let st = match got {
+        None => return Some("the receiver finds no status".to_string()),
+        Some(s) => s,
+    };
+    if st.code() as i32 as u32 != code {
+        return Some(format!("code {} received as {}", code, st.code() as i32));
+    }
+    let md = st.metadata();
+    let recv = md.clone().into_headers();
+    for k in sent.keys() {
+        let ks = k.as_str();
+        if is_reserved(ks) || ks == "grpc-status-details-bin" {
+            continue;
+        }
+        let a: Vec<&[u8]> = sent.get_all(k).iter().map(|v| v.as_bytes()).collect();
+        let c: Vec<&[u8]> = recv.get_all(k).iter().map(|v| v.as_bytes()).collect();
+        if a != c {
+            return Some(format!(
+                "status metadata {} ({} values sent) is received with {} values / other values",
+                ks, a.len(), c.len()
+            ));
+        }
+        if ks.ends_with("-bin") {
+            if let Some(want) = raw.get(ks) {
+                let got: Vec<Option<Vec<u8>>> = md.get_all_bin(ks).iter().map(|v| v.to_bytes().ok().map(|b| b.to_vec())).collect();
+                let want: Vec<Option<Vec<u8>>> = want.iter().cloned().map(Some).collect();
+                if got != want {
+                    return Some(format!("binary status metadata {} does not decode to the original bytes at the receiver", ks));
+                }
+            } else {
+                let got: Vec<&[u8]> = md.get_all_bin(ks).iter().map(|v| v.as_encoded_bytes()).collect();
+                if got != a {
+                    return Some(format!("get_all_bin does not show the received values of {}", ks));
+                }
+            }
+        } else {
+            let got: Vec<&[u8]> = md.get_all(ks).iter().map(|v| v.as_encoded_bytes()).collect();
+            if got != a {
+                return Some(format!("get_all does not show the received values of {}", ks));
+            }
+        }
+    }
+    for k in recv.keys() {
+        let ks = k.as_str();
+        if ["grpc-status", "grpc-message", "grpc-status-details-bin"].contains(&ks) {
+            return Some(format!("status header {} left in the received metadata", ks));
+        }
+        let from_user = sent.contains_key(k) && !is_reserved(ks);
+        if !from_user {
+            let b: Vec<&[u8]> = base.get_all(k).iter().map(|v| v.as_bytes()).collect();
+            let c: Vec<&[u8]> = recv.get_all(k).iter().map(|v| v.as_bytes()).collect();
+            if b != c {
+                return Some(format!("received status metadata has {} which nobody sent", ks));
+            }
+        }
+    }
+    oracle_typed(&recv)
+}
+
 fn case_add_header(out: &mut Out, r: &mut Rng, ops: &[Op], st: (u32, String, Vec<u8>), base: HeaderMap, corpus: bool) {
     let (md, raw) = apply_ops(ops);
     let sent = md.clone().into_headers();
@@ -1004,6 +1210,32 @@ fn case_add_header(out: &mut Out, r: &mut Rng, ops: &[Op], st: (u32, String, Vec
             (Tr::L(vec![Tr::n(1u8), read_tr(&h, &probes)]), oracle_wire(&sent, &h, &own, excl_status(&details), &raw))
         }
     };
+    // receiving side: the same headers read back with Status::from_header_map
+    {
+        let res = catch(std::panic::AssertUnwindSafe(|| {
+            let mut h = base.clone();
+            status.add_header(&mut h).ok().and_then(|_| Status::from_header_map(&h))
+        }));
+        let (obs, oracle, rprobes) = match res {
+            Err(p) => (Tr::L(vec![Tr::n(99u8)]), Some(format!("panic: {}", p)), vec![]),
+            Ok(got) => {
+                let rp = match &got {
+                    Some(g) => gen_probes(r, &g.metadata().clone().into_headers(), 2),
+                    None => vec![],
+                };
+                (received_tr(got.as_ref(), &rp), oracle_received(&sent, got.as_ref(), code, &base, &raw), rp)
+            }
+        };
+        out.hist("status_received.has_repeated_key", sent.keys().any(|k| sent.get_all(k).iter().count() > 1));
+        out.push(Case {
+            kind: if corpus { "corpus.status_received".into() } else { "status_received".into() },
+            input: json!({"ops": ops_json(ops), "status": [code, hex(msg.as_bytes()), hex(&details)], "base": hm_json(&base), "probes": rprobes}),
+            model: format!("obs_status_received {} {} {}", status_coq(code, &msg, &details, &sent), coq_hm(&base), coq_probes(&rprobes)),
+            impl_obs: obs,
+            oracle,
+            nontrivial: !sent.is_empty(),
+        });
+    }
     hist_md(out, "add_header", &sent, &raw);
     out.hist("add_header.base_entries", base.len());
     out.push(Case {
@@ -1566,6 +1798,14 @@ fn main() {
             case_server(&mut out, &mut r, &forged, reply, streaming, compress, (13, "".into(), vec![1, 2, 3, 4]), true);
         }
     }
+    // error status with repeated ASCII and binary keys, as the client sees it
+    let rep = vec![op(1, "x-a", b"1"), op(1, "x-a", b"2"), op(1, "x-a", b"3"), op(3, "x-p-bin", b"\x00"), op(3, "x-p-bin", b"\x01\x02"), op(1, "x-b", b"only"), op(1, "te", b"forged")];
+    for (after, streaming) in [(false, false), (false, true), (true, true)] {
+        case_client_error(&mut out, &mut r, &rep, (7, "denied".into(), vec![]), after, streaming, true);
+        case_client_error(&mut out, &mut r, &rep, (13, "".into(), vec![1, 2, 3]), after, streaming, true);
+        case_client_error(&mut out, &mut r, &forged, (5, "m %".into(), vec![9]), after, streaming, true);
+    }
+    case_add_header(&mut out, &mut r, &rep, (3, "bad".into(), vec![]), HeaderMap::new(), true);
     let mut base = HeaderMap::new();
     base.insert("content-type", HeaderValue::from_static("application/grpc"));
     base.append("x-a", HeaderValue::from_static("old"));
@@ -1605,6 +1845,12 @@ fn main() {
             base.append(*k, HeaderValue::from_static("base"));
         }
         case_add_header(&mut out, &mut r, &ops, st, base, false);
+    }
+    for _ in 0..n / 2 {
+        let ops = gen_ops(&mut r, false);
+        let st = (r.range(1, 16) as u32, gen_message(&mut r), gen_details(&mut r));
+        let (after, streaming) = *r.pick(&[(false, false), (false, true), (true, true)]);
+        case_client_error(&mut out, &mut r, &ops, st, after, streaming, false);
     }
     for _ in 0..n {
         let ops = gen_ops(&mut r, true);
@@ -1656,7 +1902,7 @@ fn main() {
 
     out.finish(
         IMPORTS,
-        "client / server.response / server.trailers / server.trailers_only / add_header: random MetadataMaps built through the public API (keys +-bin in any case, visible-ASCII, space/tab and obs-text values, binary values of every length mod 3, repeated keys, the six reserved names and grpc-encoding / grpc-status-details-bin anywhere) sent through the real client::Grpc (capturing transport), server::Grpc unary / server-streaming handlers (Response metadata, error status in trailers, trailers-only) and Status::add_header, with and without compression configured; the peer's request reaches the handler with padded and unpadded binary values; non-trivial = non-empty metadata. accessor: maps built by insert/append/remove(+_bin) and read with string keys of any case (&str, String and &String). Every received map is also read through iter, iter_mut, keys, values, values_mut, get_mut, get_bin_mut and entry / entry_bin. entry: the Entry API (or_insert, VacantEntry insert / insert_entry / into_key, OccupiedEntry get / iter / insert / insert_mult / append / remove / remove_entry_mult / get_mut / iter_mut) with keys of any case and of the wrong kind, the static encoding of every key / value / handle it hands out is observed. mutate: writes through get_mut / get_bin_mut / values_mut / iter_mut. bin_value / bin_text: byte strings and arbitrary base64 texts. key / ascii_value: validation. Distinct = distinct (kind, model expression).",
+        "client / server.response / server.trailers / server.trailers_only / add_header: random MetadataMaps built through the public API (keys +-bin in any case, visible-ASCII, space/tab and obs-text values, binary values of every length mod 3, repeated keys, the six reserved names and grpc-encoding / grpc-status-details-bin anywhere) sent through the real client::Grpc (capturing transport), server::Grpc unary / server-streaming handlers (Response metadata, error status in trailers, trailers-only) and Status::add_header, with and without compression configured; the peer's request reaches the handler with padded and unpadded binary values; non-trivial = non-empty metadata. status_received: the headers written by Status::add_header read back with Status::from_header_map, the received status.metadata() read with the typed accessors. client_error.trailers_only / client_error.trailers: a real server::Grpc handler (unary and server-streaming) failing with a status that carries repeated ASCII and binary keys, called by a real client::Grpc over an in-memory transport; the Err(status).metadata() the caller gets. accessor: maps built by insert/append/remove(+_bin) and read with string keys of any case (&str, String and &String). Every received map is also read through iter, iter_mut, keys, values, values_mut, get_mut, get_bin_mut and entry / entry_bin. entry: the Entry API (or_insert, VacantEntry insert / insert_entry / into_key, OccupiedEntry get / iter / insert / insert_mult / append / remove / remove_entry_mult / get_mut / iter_mut) with keys of any case and of the wrong kind, the static encoding of every key / value / handle it hands out is observed. mutate: writes through get_mut / get_bin_mut / values_mut / iter_mut. bin_value / bin_text: byte strings and arbitrary base64 texts. key / ascii_value: validation. Distinct = distinct (kind, model expression).",
         json!({}),
     );
 }
